@@ -171,6 +171,21 @@ func buildUniverse() (*universe, error) {
 				}
 			}
 		}
+		// unions built through the API (the checker rejects overlapping terms in source):
+		// identical type sets written differently
+		{
+			ti, ts := types.Typ[types.Int], types.Typ[types.String]
+			n1 := sc.Lookup("N1").Type()
+			term := types.NewTerm
+			for k, ts2 := range [][]*types.Term{
+				{term(false, ti)}, {term(false, ti), term(false, ti)},
+				{term(true, ti)}, {term(true, ti), term(false, ti)}, {term(false, n1), term(true, ti)},
+				{term(false, ts), term(false, ti)}, {term(false, ti), term(false, ts), term(false, ti)},
+				{term(true, ti), term(true, ts)}, {term(true, ts), term(true, ti), term(true, ts)},
+			} {
+				add(fmt.Sprintf("%sunion#%d", tag, k), types.NewUnion(ts2))
+			}
+		}
 		// tuples: distinct objects with identical element types
 		for k := 0; k < 2; k++ {
 			add(fmt.Sprintf("%stuple(int,string)#%d", tag, k), types.NewTuple(types.NewVar(token.NoPos, p, "", types.Typ[types.Int]), types.NewVar(token.NoPos, p, "x", types.Typ[types.String])))
